@@ -197,7 +197,7 @@ class BlockstreamClient(BaseClient):
             return int(est[str(sorted([int(i) for i in est.keys()])[-1:][0])] * 1000)
 
     def blockcount(self):
-        return self.compose_request('blocks', 'tip', 'height')
+        return int(self.compose_request('blocks', 'tip', 'height'))
 
     def mempool(self, txid):
         if txid:
